@@ -55,6 +55,27 @@ func c06r1(c *Ctx, id string) {
 		seq := lit.Table["SeqNo"]
 		construct := "handler:" + name
 		// builds its own snapshot (SeqNoAdvanced): [s,s], SeqNo s, and installs it as current
+		// (variant: the marker is stored into the observer first and the offset reads the field back)
+		if lit.Table["SnapshotMarker"] == "recv.currentSnapshot" && lit.Alloc != nil {
+			t, _ := allocTable(lit.Alloc)
+			if ld, isLoad := unwrap(t["SnapshotMarker"]).(*ssa.UnOp); isLoad {
+				var own []FieldStore
+				for _, fs := range w.fieldStores(w.Field("couchbase", oi.typ.Obj().Name(), "currentSnapshot")) {
+					if fs.Fn == h {
+						own = append(own, fs)
+					}
+				}
+				if len(own) == 1 && dominatesInstr(own[0].Store, ld) && dominatesInstr(own[0].Store, send) {
+					if sl, ok2 := w.litOf(own[0].Store.Val); ok2 {
+						ss, se := sl.Table["StartSeqNo"], sl.Table["EndSeqNo"]
+						ok := ss == seq && se == seq && strings.HasPrefix(seq, "param(")
+						c.Check(ok, id, construct, lit.Pos, "installs snapshot ["+seq+","+seq+"] before delivery and the offset carries that installed marker with SeqNo "+seq,
+							fmt.Sprintf("self-built snapshot is not [s,s] with SeqNo s of one value (start %s end %s seq %s)", ss, se, seq))
+						continue
+					}
+				}
+			}
+		}
 		if ss, has := lit.Table["SnapshotMarker.StartSeqNo"]; has {
 			se := lit.Table["SnapshotMarker.EndSeqNo"]
 			ok := ss == seq && se == seq && strings.HasPrefix(seq, "param(")
